@@ -90,7 +90,11 @@ RULE = ("cases = (record family: white/coloured/offset+trend/correlated inputs, 
         "multiplied by 2^e, e = -40 and +40 always plus one exponent from +-3..39 or +-60..120 per kind (one input among q >= 2: 2^+-8, 2^+-(2..12)), "
         "amplitudes within [1e-60, 1e55]: all sub-claims on the scaled data (incl. Gyy*(1-coh) of an independent compute_spectrum, SISO = MISO, exact "
         "combination -> 0 relative to the output, at the scaled or at the original size) + residual(scaled) = s_out^2 residual(original); distinct by "
-        "(solver, q, kind, direction, far, order, scheduler); q = 1 re-mix of the generated cases also through the SISO entry point")
+        "(solver, q, kind, direction, far, order, scheduler); q = 1 re-mix of the generated cases also through the SISO entry point; rank-deficient "
+        "input sets (every run): q in {2, 3}, N 500..900, Jdes 5..8, live inputs coherent through a sample delay (complex Gram matrix) plus, at a drawn "
+        "position, an all-zero / constant (order -1, 0, 1) / duplicated (x1, x2, x-1, x0.5) / linearly dependent channel, or one live channel scaled by "
+        "2^-20..2^-26 (pseudo-inverse fallback of the numeric solver): 0 <= residual <= Gyy, residual = residual of the live (unscaled) channels alone, "
+        "exact combination of the live channels -> 0, analytic = numeric on the scaled sets; distinct by (sub-check, solver, q, kind, parameter, order, scheduler)")
 
 U = 2.0 ** -53
 ETA = 1e-9          # power-like comparisons: |a - b| <= ETA * B, B = S00 + 2 sum|H_i||S_i| + sum|H_j||H_i||T_ji| (magnitude of the formula's terms)
@@ -223,6 +227,10 @@ def case_desc(c) -> Dict[str, Any]:
             d["kw"]["band"] = [float(t) for t in d["kw"]["band"]]
     if c.get("stream") == "units":
         d.update({"stream": "units", "units_t": (dict(c["units_t"]) if c.get("units_t") else None)})
+        if "band" in d["kw"]:
+            d["kw"]["band"] = [float(t) for t in d["kw"]["band"]]
+    if c.get("stream") == "rankdef":
+        d.update({"stream": "rankdef", "rd": dict(c["rd"]), "pos": int(c["pos"])})
         if "band" in d["kw"]:
             d["kw"]["band"] = [float(t) for t in d["kw"]["band"]]
     return d
@@ -1777,6 +1785,301 @@ def units_stream(ck: "Checker", ctx, seed: int, intensive: bool) -> None:
     P.notes.append(f"units stream: {done} groups in {_t.time() - t0:.1f}s")
 
 
+# ------------------------------------------------------------------------------------------------ rank-deficient input sets (every run)
+# Wave-9 miss C15i: the pseudo-inverse fallback of the numeric solver (cond(T) > 1e12 or LinAlgError) multiplied from the wrong side, i.e. solved
+# against conj(T): nothing happens while T is real, and every other stream discards the bins with cond(T) > 1e8, so the fallback was never looked at.
+# Miso.normal_eq_minimises assumes no invertibility: the residual at ANY solution of the normal equations is the minimum over the span of the inputs
+# and <= S00.  This stream hands over input sets whose Gram matrix is singular / nearly singular at EVERY bin while its off-diagonals are complex
+# (the live inputs are coherent through a sample delay):
+#   zero     one all-zero channel                                     const    one constant channel (stuck sensor), order -1 / 0 / 1
+#   dup      one channel = m * another one (m = 1, 2, -1, 0.5)         lincomb  one channel = a*x_i + b*x_j of two others (q = 2: a*x_i, a not 2^k)
+#   ratio    one of q live channels multiplied by 2^-e, e = 20..26 (cond(T) x 4^e: the same records in other units)
+# at a drawn position of the list, q in {2, 3}, N 500..900, Jdes 5..8.  Predicates on the bins with navg > q, resolved output spectrum and a
+# well-conditioned (cond <= 1e8) REFERENCE set (the live channels alone; ratio: the unscaled channels):
+#   rankdef_bound      0 <= residual <= Gyy + tol                 rankdef_same_span  residual(with the useless channel) = residual(reference set)
+#   rankdef_exact      y = exact static combination of the live channels (ratio: of the scaled ones) -> residual <= tolE
+#   rankdef_solvers    ratio only, where rho(T) <= RHO_MAX: analytic = reference, numeric = analytic.  On singular sets the analytic solver divides
+#                      by det T = 0 (NaN / garbage): recorded in the histogram, not judged.
+# Tolerances.  Singular kinds: the numeric answer is r(H) = r(H*) + d^H T d, H* the minimum-norm solution, d the error of H; the reference solution
+# padded with a zero solves the same normal equations, so |H*| <= |H0| (lincomb: (1+|a|+|b|) |H0|), and the part of d along a direction whose singular
+# value survives pinv's cut (>= 1e-15 s_max = 4.5 u s_max) is rounding noise of S over rounding noise of T, a small multiple of |S|/s_max <= |H0|:
+# the formula's terms are bounded by Bd = Gyy + 2 Hn |S| + Hn^2 |T|_F with Hn = 16 |H0|_2, and tol = ETA * (Bd + B0) keeps the factor ~1e6 over the
+# unit roundoff that ETA has everywhere else.  const: the window leaks a constant into every bin when order = -1: only bins where the smallest singular
+# value is <= 1e-18 s_max (three decades under pinv's cut: certainly dropped) or, any order, exactly 0 are judged, the others counted unstable.
+# ratio: a backward-stable solve of T H = S (LU or SVD: (T+E) H = S, |E| <= c u |T|) leaves d^H T d <= c^2 u^2 cond(T)^2 B, B invariant under
+# the diagonal rescaling: tol = (2 ETA + 64 (u cond)^2) * B0 with cond <= cond(T0) 4^e; bins with u cond > 0.1 are counted unstable (beyond ~2^-25 the
+# unchanged library drops the small channel altogether).  rankdef_exact uses 1e-10 instead of ETA (amplitude 1e-5 sqrt(B)).
+RD_KINDS = ["zero", "const", "dup", "lincomb", "ratio"]
+RD_TRUNC = 1e-18
+RD_UK_MAX = 0.1
+ETA_EXACT_RD = 1e-10
+RD_E = (20, 26)
+
+
+def rd_tag(spec: Dict[str, Any]) -> str:
+    k = spec["kind"]
+    ex = {"const": f"(order {spec.get('order')})", "dup": f"(x{spec.get('mult')})", "ratio": f"(2^-{spec.get('e')})"}.get(k, "")
+    return f"rankdef:{k}{ex}"
+
+
+def build_rankdef_case(sub_seed: int, spec: Dict[str, Any]) -> Dict[str, Any]:
+    """spec = {"kind", "q", and "order" (const) / "mult" (dup) / "e" (ratio)}; records, position of the degenerate channel, options from sub_seed"""
+    rng = np.random.default_rng(int(sub_seed))
+    kind, q = str(spec["kind"]), int(spec["q"])
+    N = int(rng.integers(500, 901))
+    fs = float(rng.choice([1.0, 2.0, 100.0, float(rng.uniform(0.5, 50.0))]))
+    nlive = q if kind == "ratio" else q - 1
+    a0 = float(10.0 ** rng.uniform(-2, 2))
+    v0 = rng.standard_normal(N)
+    if rng.random() < 0.4:
+        v0 = _colour(rng, v0)
+    v0 = v0 / max(float(np.std(v0)), 1e-300)
+    us = [v0]
+    for _ in range(1, nlive):                         # coherent with the first one through a sample delay: complex off-diagonals of T
+        d = int(rng.integers(1, 6))
+        us.append(float(rng.uniform(0.5, 0.9)) * np.roll(v0, d) + float(rng.uniform(0.3, 0.8)) * rng.standard_normal(N))
+    offs = [float(rng.uniform(-3, 3)) if rng.random() < 0.25 else 0.0 for _ in range(nlive)]
+    live = [a0 * float(10.0 ** rng.uniform(-0.5, 0.5)) * (v + o) for v, o in zip(us, offs)]
+    sig = np.zeros(N)
+    for v in us:
+        sig = sig + float(rng.choice([-1.0, 1.0]) * 10.0 ** rng.uniform(-0.7, 0.5)) * np.roll(v, int(rng.integers(0, 5)))
+    noise_rel = float(rng.choice([0.03, 0.3, 1.0]))
+    y = float(10.0 ** rng.uniform(-2, 2)) * (sig + noise_rel * float(np.std(sig)) * rng.standard_normal(N))
+    kw = _draw_sweep_kw(rng, fs)
+    kw["Jdes"] = int(rng.integers(5, 9))
+    kw["order"] = int(spec["order"]) if kind == "const" else int(rng.choice(ORDERS))
+    kw["scheduler"] = str(rng.choice(SCHEDS_ALL))
+    coeffs = [float(rng.choice([-1.0, 1.0]) * 10.0 ** rng.uniform(-1, 1)) for _ in range(nlive)]
+    pos = int(rng.integers(0, q))
+    j = int(rng.integers(0, nlive))
+    ab = [float(rng.choice([-1.0, 1.0]) * rng.uniform(0.3, 2.0)) for _ in range(2)]
+    cval = float(rng.choice([-1.0, 1.0]) * rng.uniform(0.5, 5.0)) * a0
+    if kind == "ratio":
+        xs = [np.asarray(v) * (2.0 ** -int(spec["e"]) if i == pos else 1.0) for i, v in enumerate(live)]
+    else:
+        if kind == "zero":
+            z = np.zeros(N)
+        elif kind == "const":
+            z = np.full(N, cval)
+        elif kind == "dup":
+            z = float(spec["mult"]) * live[j]
+        elif nlive >= 2:
+            z = ab[0] * live[0] + ab[1] * live[1]
+        else:
+            z = ab[0] * live[0]
+        xs = list(live[:pos]) + [z] + list(live[pos:])
+    return {"stream": "rankdef", "sub_seed": int(sub_seed), "q": q, "N": N, "fs": fs, "family": "rankdef", "coupling": rd_tag(spec), "xs": xs, "y": y,
+            "kw": kw, "coeffs": coeffs, "A": np.eye(q), "perm": list(range(q)), "noise_rel": noise_rel, "big": False, "live": live,
+            "rd": dict(spec), "pos": pos}
+
+
+def _rd_rho(T: np.ndarray) -> np.ndarray:
+    nf = T.shape[2]
+    out = np.full(nf, np.inf)
+    for k in range(nf):
+        Tk = T[:, :, k]
+        if np.all(np.isfinite(Tk)):
+            dt = abs(np.linalg.det(Tk))
+            if dt > 0:
+                out[k] = float(np.prod(np.abs(Tk).sum(axis=1))) / dt
+    return out
+
+
+def rankdef_check(ck: "Checker", c: Dict[str, Any], analytic: bool = False) -> None:
+    P = ck.P
+    q, spec = c["q"], c["rd"]
+    kind = spec["kind"]
+    xs, live, y, fs, kw = c["xs"], c["live"], c["y"], c["fs"], c["kw"]
+    try:
+        ing0 = Ingredients(live, y, fs, kw)
+        ingf = Ingredients(xs, y, fs, kw)
+    except Exception as ex:
+        P.hit("skipped_compute_spectrum_error")
+        P.notes.append(f"rank-deficient stream: compute_spectrum raised {ex!r} for {kw}"[:160])
+        return
+    P.hit(f"rankdef_q{q}_{kind}")
+    nf = ing0.nf
+    keyb = (q, kind, str(spec.get("order", spec.get("mult", spec.get("e")))), kw.get("order", 0), kw.get("scheduler", "vectorized_ltf"))
+
+    def budget(i0: Ingredients, iF: Ingredients):
+        """(mask, tol_bound, tol_equal, tol_exact) for the output record the two ingredient sets were computed for"""
+        base = i0.resolved & (i0.navg > q) & (i0.cond <= COND_MAX) & np.isfinite(i0.B)
+        fin = np.array([bool(np.all(np.isfinite(iF.T[:, :, k])) and np.all(np.isfinite(iF.S[:, k]))) for k in range(nf)])
+        base &= fin
+        B0 = np.where(np.isfinite(i0.B), i0.B, 0.0)
+        if kind == "ratio":
+            uk = U * i0.cond * 4.0 ** int(spec["e"])
+            ok = base & (uk <= RD_UK_MAX)
+            P.unstable += int((base & ~ok).sum())
+            ex = 64.0 * np.where(ok, uk, 0.0) ** 2
+            return ok, (ETA + ex) * B0, (2 * ETA + ex) * B0, (ETA_EXACT_RD + ex) * B0
+        ok = base.copy()
+        if kind == "const":
+            for k in np.where(base)[0]:
+                sv_ = np.linalg.svd(iF.T[:, :, k], compute_uv=False)
+                if not (sv_[0] > 0 and sv_[-1] <= RD_TRUNC * sv_[0]):
+                    ok[k] = False
+            P.unstable += int((base & ~ok).sum())
+        Hn = 16.0 * np.sqrt(np.sum(np.abs(i0.H) ** 2, axis=0))
+        Sn = np.sqrt(np.sum(np.abs(iF.S) ** 2, axis=0))
+        Tn = np.sqrt(np.sum(np.abs(iF.T) ** 2, axis=(0, 1)))
+        with np.errstate(all="ignore"):
+            Bd = np.where(ok, i0.S00 + 2.0 * Hn * Sn + Hn * Hn * Tn, 0.0)
+        ok &= np.isfinite(Bd)
+        return ok, ETA * Bd, ETA * (Bd + B0), ETA_EXACT_RD * (Bd + B0)
+
+    ok, tol_b, tol_e, _ = budget(ing0, ingf)
+    P.hit("rankdef_bins_checked", int(ok.sum()))
+    c["_S00"] = ing0.S00
+    res: Dict[str, np.ndarray] = {}
+    # const, bins where the leaked constant is NOT certainly dropped (T of full rank, cond up to 1e15: solve or untruncated pinv): the span is truly
+    # larger, so only  residual <= Gyy  and  residual <= minimum over the live channels  (a minimum over a larger span) are demanded, within the
+    # backward-stable-solve budget of the ratio kind with the measured cond(T) and the scale B of the full set's own solution
+    ok2 = np.zeros(nf, dtype=bool)
+    if kind == "const":
+        uk2 = U * ingf.cond
+        ok2 = (ing0.resolved & (ing0.navg > q) & (ing0.cond <= COND_MAX) & np.isfinite(ing0.B) & ~ok & np.isfinite(ingf.B) & (uk2 <= RD_UK_MAX)
+               & (ingf.cond > COND_MAX))
+        P.unstable -= int(ok2.sum())
+        P.hit("rankdef_bins_checked_one_sided", int(ok2.sum()))
+    asd = ck.run_fn(c, "rankdef_bound", "numeric", xs, y, _with_good(ingf, ok | ok2))
+    if asd is not None and ok2.any():
+        P.cases += 1
+        P.nontrivial.add(("rankdef_not_worse", "numeric") + keyb)
+        tol2 = np.where(ok2, (2 * ETA + 64.0 * np.where(ok2, uk2, 0.0) ** 2) * np.where(ok2, ingf.B + ing0.B, 0.0), 0.0)
+        for nm, refv, what in (("rankdef_bound", ing0.S00, "exceeds the output's own spectrum Gyy"),
+                               ("rankdef_not_worse", ing0.rref, "exceeds the least-squares minimum over the live channels alone")):
+            over = asd ** 2 - refv
+            r = np.where(ok2, over / np.where(ok2, tol2, 1.0), 0.0)
+            ck.ratio(nm + "_one_sided", float(np.max(r)))
+            badm = ok2 & ~(over <= tol2)
+            if badm.any():
+                k = int(np.argmax(np.where(badm, r, 0)))
+                ck.viol(c, nm, "numeric", f"bin {k} (navg={int(ing0.navg[k])}, cond(T)={ingf.cond[k]:.3g}): residual power {float(asd[k] ** 2)!r} {what} "
+                        f"{float(refv[k])!r} by more than {tol2[k]:.3g} ({c['coupling']} at position {c['pos']})",
+                        {"bin": k, "observed": float(asd[k] ** 2), "expected_at_most": float(refv[k]), "tol": float(tol2[k])})
+    if asd is not None:
+        res["numeric"] = rf = asd ** 2
+        if ok.any():
+            P.nontrivial.add(("rankdef_bound", "numeric") + keyb)
+        over = rf - ing0.S00
+        r = np.where(ok, over / np.where(ok & (tol_b > 0), tol_b, 1.0), 0.0)
+        ck.ratio("rankdef_bound", float(np.max(r)) if ok.any() else 0.0)
+        badm = ok & ~(over <= tol_b)
+        if badm.any():
+            k = int(np.argmax(np.where(badm, r, 0)))
+            ck.viol(c, "rankdef_bound", "numeric", f"bin {k} (navg={int(ing0.navg[k])}): residual power {float(rf[k])!r} exceeds the output's own spectrum "
+                    f"Gyy={float(ing0.S00[k])!r} (ratio {rf[k] / ing0.S00[k]:.6g}; input {c['pos']} of {q} is degenerate: {c['coupling']})",
+                    {"bin": k, "observed": float(rf[k]), "Gyy": float(ing0.S00[k])})
+        # the same span: least-squares minimum over the reference set, and the numeric solver's own answer for the reference set
+        P.cases += 1
+        if ck.cmp_power(c, "rankdef_same_span", "numeric", rf, ing0.rref, tol_e / ETA, ok,
+                        f"({c['coupling']} at position {c['pos']}) the least-squares minimum over the reference channels is", key="rankdef_same_span"):
+            P.nontrivial.add(("rankdef_same_span", "numeric") + keyb)
+        a0_ = ck.run_fn(c, "rankdef_same_span", "numeric", live, y, _with_good(ing0, ok))
+        if a0_ is not None:
+            ck.cmp_power(c, "rankdef_same_span", "numeric", rf, a0_ ** 2, tol_e / ETA, ok,
+                         f"({c['coupling']} at position {c['pos']}) the numeric solver on the reference channels alone gives", key="rankdef_same_span")
+    # analytic solver: judged on the ratio kind only (non-singular T, closed form accurate where rho <= RHO_MAX); singular sets are recorded
+    if analytic:
+        try:
+            fa, aa = call("analytic", xs, y, fs, kw)
+            aa = np.asarray(aa, dtype=float)
+        except Exception as ex:
+            P.hit(f"rankdef_analytic_raised_{kind}")
+            aa = None
+        if aa is not None and aa.shape == ing0.f.shape:
+            P.cases += 1
+            if kind != "ratio":
+                P.hit(f"rankdef_analytic_{kind}_bins_nonfinite", int((ok & ~np.isfinite(aa)).sum()))
+                P.hit(f"rankdef_analytic_{kind}_bins_finite", int((ok & np.isfinite(aa)).sum()))
+            else:
+                ga = ok & (ing0.rho <= RHO_MAX) & (_rd_rho(ingf.T) <= RHO_MAX)
+                B0 = np.where(np.isfinite(ing0.B), ing0.B, 0.0)
+                bad = ga & ~(np.isfinite(aa) & (aa >= 0))
+                if bad.any():
+                    k = int(np.where(bad)[0][0])
+                    ck.viol(c, "rankdef_bound", "analytic", f"ASD[{k}] = {float(aa[k])!r} is not a finite non-negative number ({c['coupling']})", {"bin": k})
+                else:
+                    if ck.cmp_power(c, "rankdef_same_span", "analytic", aa ** 2, ing0.rref, 2 * B0, ga,
+                                    f"({c['coupling']}) the least-squares minimum for the unscaled channels is", key="rankdef_same_span_analytic"):
+                        P.nontrivial.add(("rankdef_same_span", "analytic") + keyb)
+                    if "numeric" in res:
+                        if ck.cmp_power(c, "rankdef_solvers", "analytic-vs-numeric", aa ** 2, res["numeric"], (tol_e + ETA * B0) / ETA, ga,
+                                        f"({c['coupling']}) numeric solver gives", key="rankdef_solvers"):
+                            P.nontrivial.add(("rankdef_solvers",) + keyb)
+    # exact static combination of the live channels (ratio: of the channels as handed over)
+    src = xs if kind == "ratio" else live
+    ye = sum(cj * xj for cj, xj in zip(c["coeffs"], src))
+    try:
+        inge0 = ing0.for_output(live, ye, fs, kw)
+        ingef = ingf.for_output(xs, ye, fs, kw)
+    except Exception:
+        inge0 = None
+    if inge0 is not None:
+        oke, _, _, tol_x = budget(inge0, ingef)
+        c["_S00"] = inge0.S00
+        asd = ck.run_fn(c, "rankdef_exact", "numeric", xs, ye, _with_good(ingef, oke))
+        if asd is not None:
+            pw = asd ** 2
+            if oke.any():
+                P.nontrivial.add(("rankdef_exact", "numeric") + keyb)
+            r = np.where(oke, pw / np.where(oke & (tol_x > 0), tol_x, 1.0), 0.0)
+            ck.ratio("rankdef_exact", float(np.max(r)) if oke.any() else 0.0)
+            badm = oke & ~(pw <= tol_x)
+            if badm.any():
+                k = int(np.argmax(np.where(badm, r, 0)))
+                ck.viol(c, "rankdef_exact", "numeric", f"bin {k} (navg={int(inge0.navg[k])}): y = sum c_j x_j exactly (live channels) but residual ASD {float(asd[k])!r} = "
+                        f"{asd[k] / np.sqrt(inge0.S00[k]):.3g}*sqrt(Gyy) (allowed {np.sqrt(tol_x[k] / inge0.S00[k]):.3g}*sqrt(Gyy); {c['coupling']} at position {c['pos']})",
+                        {"bin": k, "coeffs": c["coeffs"], "observed": float(asd[k]), "Gyy": float(inge0.S00[k])})
+    c.pop("_S00", None)
+
+
+def rankdef_plan(rng, full: bool) -> List[Dict[str, Any]]:
+    """one round: every kind with q = 3 (const with order -1 AND 0), the amplitude ratio with q = 2 at both ends of the range that is judged and q = 3,
+    one q = 2 singular set; full: more exponents / multipliers / orders"""
+    mult = float(rng.choice([1.0, 2.0, -1.0, 0.5]))
+    e_mid = int(rng.integers(RD_E[0] + 1, 24))
+    plan = [{"kind": "zero", "q": 3}, {"kind": "const", "q": 3, "order": -1}, {"kind": "const", "q": 3, "order": 0},
+            {"kind": "dup", "q": 3, "mult": 1.0 if mult != 1.0 and rng.random() < 0.5 else mult}, {"kind": "lincomb", "q": 3},
+            {"kind": "ratio", "q": 2, "e": RD_E[0]}, {"kind": "ratio", "q": 2, "e": e_mid}, {"kind": "ratio", "q": 3, "e": int(rng.integers(RD_E[0], 23))}]
+    k2 = str(rng.choice(["zero", "const", "dup", "lincomb"]))
+    o2 = int(rng.choice([-1, 0, 1]))
+    m2 = float(rng.choice([1.0, 2.0, -1.0, 0.5]))
+    plan.append({"kind": k2, "q": 2, **({"order": o2} if k2 == "const" else {}), **({"mult": m2} if k2 == "dup" else {})})
+    if full:
+        plan += [{"kind": "dup", "q": 3, "mult": 2.0}, {"kind": "const", "q": 3, "order": 1}, {"kind": "ratio", "q": 2, "e": int(rng.integers(24, RD_E[1] + 1))},
+                 {"kind": "ratio", "q": 3, "e": RD_E[0]}]
+    return plan
+
+
+def rankdef_stream(ck: "Checker", ctx, seed: int, intensive: bool) -> None:
+    import time as _t
+    P = ck.P
+    rng = np.random.default_rng(int(seed))
+    full = bool(ctx.thorough or intensive)
+    rounds = 4 if ctx.thorough else (3 if intensive else 1)
+    cap = 45.0 if ctx.thorough else (30.0 if intensive else 10.0)
+    t0 = _t.time()
+    done = 0
+    for rnd in range(rounds):
+        plan = rankdef_plan(rng, full)
+        rec = int(rng.integers(0, 5))                    # which singular set of the round has the analytic solver's behaviour recorded
+        for i, spec in enumerate(plan):
+            if ctx.time_left() < 40 or _t.time() - t0 > cap:
+                P.notes.append(f"rank-deficient stream: time budget reached after {done} cases")
+                return
+            c = build_rankdef_case(int(rng.integers(0, 2 ** 62)), spec)
+            units_fit_plan(c)
+            rankdef_check(ck, c, analytic=bool(spec["kind"] == "ratio" or i == rec))
+            done += 1
+            if done <= 2:
+                P.sample({"op": "oracle-rankdef", **case_desc(c)})
+            if len(P.violations) >= 8:
+                return
+    P.notes.append(f"rank-deficient stream: {done} cases in {_t.time() - t0:.1f}s")
+
+
 # ------------------------------------------------------------------------------------------------ corpus: defect D14 (thorough tier)
 # D14 (fixed by /repo commit a8eaa1b "MISO_numeric caches the pairwise input spectra under unambiguous keys"): before the fix the helper get_ltf_result
 # memoised the pair (i, j) under f"T{i+1}{j+1}"; from 112 inputs on two pairs share a key ("T1112" = (1,112) = (11,12)), Tmat received the cross-spectrum
@@ -1869,6 +2172,12 @@ def oracle(ctx, intensive: bool = False, hints: List[Dict[str, Any]] = ()) -> C.
             units_stream(ck, ctx, int(np.random.default_rng([int(ctx.seed), 0x0C15B]).integers(0, 2 ** 62)), intensive)
     except Exception as ex:
         P.notes.append(f"units stream aborted: {ex!r}"[:200])
+    # rank-deficient input sets (pseudo-inverse fallback of the numeric solver; a few seconds): same bookkeeping
+    try:
+        if len(P.violations) < 8:
+            rankdef_stream(ck, ctx, int(np.random.default_rng([int(ctx.seed), 0x0C15D]).integers(0, 2 ** 62)), intensive)
+    except Exception as ex:
+        P.notes.append(f"rank-deficient stream aborted: {ex!r}"[:200])
     if not ctx.thorough:
         cap_s += _t.time() - t_sw          # (thorough tier: the sweep's <= 90 s come out of the 540 s of the generated-case stream)
 
@@ -1973,6 +2282,16 @@ def replay(ctx, data) -> C.Part:
             if cs is None or case_digest(cs) != cd.get("digest"):
                 P.notes.append(f"replay: regenerated records differ from the stored digest for units case {cd['sub_seed']}")
             units_group(ck, c0, [dict(t, exact=True, exact_analytic=True)] if t else [])
+            continue
+        if cd.get("stream") == "rankdef":
+            c = build_rankdef_case(cd["sub_seed"], dict(cd["rd"]))
+            kw = dict(cd["kw"])
+            if "band" in kw:
+                kw["band"] = tuple(float(t) for t in kw["band"])
+            c["kw"] = kw
+            if case_digest(c) != cd.get("digest"):
+                P.notes.append(f"replay: regenerated records differ from the stored digest for rank-deficient case {cd['sub_seed']}")
+            rankdef_check(ck, c, analytic=True)
             continue
         if cd["sub_seed"] == -14:
             check_d14(ck)
